@@ -469,4 +469,65 @@ theorem NoConn.not_conn {G : Graph} {a b : Nat} (h : NoConn G a b) : ¬ Conn G a
   · exact h.1 h1
   · exact h.2 z p hz
 
+/-! ### the default rendering (`showHidden = false`): every hidden target replaced by its rule, repeats removed -/
+
+/-- the result without `--hidden` is the result with `--hidden`, rendered -/
+theorem go_shape (G : Graph) (sh : Bool) : ∀ (ps : List (Nat × Nat)) (m : Memo),
+    somePathAll.go G sh ps m =
+      match somePathAll.go G true ps m with
+      | .found p => .found (if sh then p else compact (p.map G.pl))
+      | .nopath => .nopath
+      | .oof => .oof := by
+  intro ps
+  induction ps with
+  | nil => intro m; simp [somePathAll.go]
+  | cons e ps ih =>
+    intro m
+    obtain ⟨a, b⟩ := e
+    simp only [somePathAll.go]
+    generalize spBoth G m a b = r
+    obtain ⟨res, m'⟩ := r
+    cases res with
+    | nopath => exact ih m'
+    | found q => simp
+    | oof => rfl
+
+/-- some target of rule `a` depends on some target of rule `b` -/
+def RuleStep (G : Graph) (a b : Nat) : Prop := ∃ x y, G.pl x = a ∧ G.pl y = b ∧ Edge G x y
+
+/-- consecutive entries are different rules joined by a dependency between their targets -/
+def RChain (G : Graph) : List Nat → Prop
+  | [] => True
+  | [_] => True
+  | a :: b :: r => (RuleStep G a b ∧ a ≠ b) ∧ RChain G (b :: r)
+
+theorem compact_cons_head : ∀ (l : List Nat) (x : Nat), ∃ tl, compact (x :: l) = x :: tl := by
+  intro l
+  induction l with
+  | nil => intro x; exact ⟨[], rfl⟩
+  | cons y r ih =>
+    intro x
+    simp only [compact]
+    split
+    · rename_i h
+      simp only [beq_iff_eq] at h
+      subst h
+      exact ih x
+    · exact ⟨_, rfl⟩
+
+/-- rendering a real dependency chain gives a chain of rules, each depending on the next -/
+theorem compact_chain (G : Graph) : ∀ (p : List Nat), Chain G p → RChain G (compact (p.map G.pl))
+  | [], _ => trivial
+  | [_], _ => trivial
+  | a :: b :: r, hc => by
+    have ih := compact_chain G (b :: r) hc.2
+    simp only [List.map_cons] at ih ⊢
+    simp only [compact]
+    split
+    · exact ih
+    · rename_i hne
+      obtain ⟨tl, htl⟩ := compact_cons_head (r.map G.pl) (G.pl b)
+      rw [htl] at ih ⊢
+      exact ⟨⟨⟨a, b, rfl, rfl, hc.1⟩, by simpa using hne⟩, ih⟩
+
 end PlzVerif.Query
